@@ -8,7 +8,8 @@ RULE = ("one case = one broker session: publishes with and without retain flag /
         "channels (ttl values 0, small, 2^32 and 2^32+5), last wills with retain, interleaved with later subscriptions with "
         "and without load permission and every `last` value (0, 1, default, several, huge); the packets between SUBSCRIBE and "
         "SUBACK are compared (as a multiset: all messages of a session fall into one or two seconds). non-trivial = distinct (op, answer)")
-TRUSTED = ["history lookup inside one session: 'the N most recently stored matching messages' (time windows, expiry and paging are C06's subject)",
+TRUSTED = ["the broker's own publishes on stats/<node>/ (monitoring sink 'self', once a second, into the owner's contract) are not answers to a request and are dropped from the observables",
+           "history lookup inside one session: 'the N most recently stored matching messages' (time windows, expiry and paging are C06's subject)",
            "in-memory badger as the store"]
 ASSUMPTIONS = ["requests are issued one at a time; messages never expire within a session (ttl >= 100 s or 0)"]
 CLAIM = {
